@@ -3,6 +3,7 @@ package c19
 import (
 	"fmt"
 	"math"
+	"strings"
 	"sync"
 	"testing"
 
@@ -344,6 +345,24 @@ func TestDualContouring(t *testing.T) {
 				fail("not-repeatable", fmt.Sprintf("a render made while other dual-contouring renders were running produced a different triangle sequence (%d vs %d triangles)", len(ts), len(tsc)))
 			}
 			rec.Add("dc:repeated-while-other-renders-run", 1)
+		}
+		// ONE DualContouringV2 object rendering the solid from three goroutines at once (a program that renders
+		// its parts in parallel with a renderer it configured once): each result is the solo result
+		if strings.HasPrefix(st.name, "V2") && rapid.IntRange(0, 3).Draw(t, "one-renderer-object-in-parallel") == 0 {
+			var wg sync.WaitGroup
+			res := make([][]*sdf.Triangle3, 3)
+			for i := range res {
+				wg.Add(1)
+				go func(i int) { defer wg.Done(); res[i] = rr(rs) }(i)
+			}
+			wg.Wait()
+			for i := range res {
+				if !sameSeq(ts, res[i]) {
+					fail("not-repeatable", fmt.Sprintf("one renderer object used by three goroutines at once: render %d produced a different triangle sequence (%d vs %d triangles)", i, len(ts), len(res[i])))
+					break
+				}
+			}
+			rec.Add("dc:one-renderer-object-in-parallel", 1)
 		}
 		if ts3 := st.run(rs, cells); !sameSeq(ts, ts3) {
 			fail("not-repeatable", fmt.Sprintf("a fresh renderer object produced a different triangle sequence (%d vs %d triangles; the first renderer had rendered another shape before: %v)", len(ts), len(ts3), reused))
